@@ -60,6 +60,21 @@ def rand_lines(rng, nsrc, nnames, hist, max_lines=6, max_segs=8, monotone=False,
                 bump(hist, "exact_duplicate")
                 ntok += 1
                 continue
+            if r < 17 and segs and segs[-1] is not None and len(segs[-1]) >= 4 and nsrc > 1:
+                # near duplicate of the previous token: everything equal except the source id (and, with 5 fields,
+                # possibly the name id) - a different token even when both ids carry the same string
+                prev = segs[-1]
+                ns = (src + 1 + rng.below(nsrc - 1)) % nsrc
+                f = [0, ns - src, 0, 0]
+                src = ns
+                if len(prev) == 5 and nnames > 0:
+                    nn2 = rng.below(nnames)
+                    f.append(nn2 - name)
+                    name = nn2
+                segs.append(f)
+                bump(hist, "near_duplicate_other_id")
+                ntok += 1
+                continue
             if r < 30:
                 c = 0  # same generated position
                 bump(hist, "same_position")
@@ -145,6 +160,10 @@ def rand_regular(rng, hist, monotone=False, budget=None, hermes=False, wild=True
         if wild and rng.chance(0.12):
             srcs.append(None)
             bump(hist, "null_source")
+        elif srcs and any(x is not None for x in srcs) and rng.chance(0.2):
+            # the same string under a second id: ids, not strings, identify a source
+            srcs.append(rng.choice([x for x in srcs if x is not None]))
+            bump(hist, "duplicate_source_string")
         else:
             srcs.append(rand_str(rng))
     if nsrc or rng.chance(0.7):
@@ -160,6 +179,9 @@ def rand_regular(rng, hist, monotone=False, budget=None, hermes=False, wild=True
         elif wild and r < 14:
             names.append(rng.choice(["null", "t", "a", "o"]))
             bump(hist, "odd_name")
+        elif names and rng.chance(0.2):
+            names.append(rng.choice(names))
+            bump(hist, "duplicate_name_string")
         else:
             names.append(sx(rand_str(rng, NAME_POOL)))
     if nn or rng.chance(0.6):
